@@ -9,51 +9,96 @@ from props import rng_common as RC
 PROP = "C05"
 MANIFEST = {
     "text": "Lean 4 theorems over an explicit RNG state (private stream per generator instance, global numpy / torch / python "
-            "streams, libc, OS entropy) with abstract streams: for every RNG-access table in which each draw reads self.rng "
-            "inside `with temp_seed(self.rng, seed)`, a seeded call's output is the same from any two states and on any two "
-            "instances, after every op history (seeded/unseeded calls, other shapes/generators, return_acs on/off, new "
-            "instances, draws from / re-seedings of the global generators), and every call restores all private streams and "
-            "leaves the numpy/torch/python global streams untouched; the return_acs branch shares the mask branch's leading "
-            "draws. The premise is decided by `decide` on the table generated from the current source by an AST walk over all "
-            "14 generators' mask_func + helpers (+ temp_seed's statement skeleton, kernel-seed provenance, srand-before-rand "
-            "in the .pyx files). Differential correspondence: real histories vs the model on symbolic streams (state ids of "
-            "np/torch/python/private streams after every op, output classes, ACS/mask request traces), every executed draw "
-            "mapped to its static table site through the caller frame of a recording RandomState. Also covered: the seed plumbing "
-            "CreateSamplingMask -> mask_func(shape, seed=tuple(map(ord, filename))) (generated facts + real transform calls in the "
-            "histories, theorem create_sampling_mask_reproducible), integerize_seed, and calls that raise inside the seeded scope "
-            "(fault injected at the k-th draw, infeasible pairs of the same family): they restore like any other call and the "
-            "following seeded call is unaffected.",
-    "note": "Trusted: Lean kernel (+propext, Classical.choice, Quot.sound), the AST walk (completeness: every executed draw is "
-            "checked to be a listed site, but draws on objects the recorder cannot see are only caught through the state ids "
-            "and the bitwise mask comparison), numpy RandomState determinism (seed -> stream), SHA-1 of get_state() as state "
-            "identity. Partial: libc rand() state is global and re-seeded by the Cython kernels - not restored, not among the "
-            "streams the property names; the kernels' seeds are shown to be in-scope draws from self.rng. CalgaryCampinas is "
-            "out of scope: its RNG sites are walked and reported in the generated file / translator status only (it needs "
-            "downloaded masks to run).",
-    "technique": "Lean 4 proof (induction over interaction trees and op histories) + generated RNG-access table decided by "
-                 "`decide` + differential correspondence on recorded draw logs + direct bitwise oracle",
+            "streams, libc's rand() as a stream of its own, OS entropy) with abstract streams: for every RNG-access table in "
+            "which each draw reads self.rng inside `with temp_seed(self.rng, seed)` and every body that keeps the libc "
+            "discipline (no rand() loop before an srand of the same call - derived from the generated .pyx event table by "
+            "kernelProg_libcOk), a seeded call's output is the same from any two states and on any two instances, after every "
+            "op history (seeded/unseeded calls, other shapes/generators/classes, return_acs on/off, new instances, deep copies "
+            "/ pickle round trips of an instance, draws from / re-seedings of numpy, torch, python AND libc), every call "
+            "restores all private streams and leaves numpy/torch/python untouched, and the global streams after any history "
+            "are those of the non-generator ops alone (history_globals_eq_noncall). libc is stated exactly: not restored "
+            "(witness libc_not_restored), but after a seeded call it is either untouched or in a state that is a function of "
+            "(seed, program) alone (libc_after_seeded_call); a call without a kernel leaves it alone; two kernels interleaved "
+            "in one process cannot influence each other (interleaved_kernel_calls_independent); a kernel that draws before it "
+            "seeds is history dependent (rand_before_srand_violates). The hypotheses SitesIn / LibcOk are discharged for every "
+            "body the driver builds from a recorded call (Lemmas/C05Driver: progOf_ok, driver_call_history_independent; "
+            "Bridge: code_driver_call_history_independent for the generated tables). The premises are decided by `decide` on "
+            "tables generated from the current source: RNG-access table by a closed-world AST walk over all 14 generators' "
+            "mask_func and everything reachable from it (methods through the class hierarchy, module functions, nested "
+            "functions, functions of other direct.* modules such as T.center_crop; methods named like random-number entry "
+            "points on any object and torch in-place random fills are sites of an unknown stream; calls the walk cannot follow "
+            "are listed and must be absent), temp_seed's statement skeleton, kernel-seed provenance, the libc event list of "
+            "every .pyx kernel (srand(seed) at the top level on the unmodified int parameter, first, once; no Python-level "
+            "generator inside a kernel), 'no instance / class / module / closure / mutable-default state written and no "
+            "memoising decorator' in the reachable set, the seed plumbing of CreateSamplingMask, and the seed class of every "
+            "consumer of a generator outside subsample.py (CreateSamplingMask x2, EstimateBodyCoilImage, apply_mask). "
+            "Differential correspondence: real histories vs the model on symbolic streams (state ids of np/torch/python/private "
+            "streams AND of glibc's rand() state - read non-destructively through setstate - after every op, output classes, "
+            "ACS/mask request traces incl. kernel results), every executed draw mapped to its static table site through the "
+            "caller frame of a recording RandomState. Oracle on the real code: observed seeded mask+ACS after a history vs the "
+            "same call alone in another process with another PYTHONHASHSEED, on a reused / fresh / deep-copied / unpickled "
+            "instance; seeds 0, 1, 2**32-1, numpy integer scalars and arrays, lists, 1- and ~100-tuples, bytes-derived tuples, "
+            "tuples of numpy ints; rejected seeds (-1, 2**32, (), negative / oversized elements, float) change nothing; masks "
+            "made inside forked DataLoader workers agree per file and with the direct call; apply_mask / EstimateBodyCoilImage "
+            "/ CreateSamplingMask obtain the mask of the direct seeded call; exceptions inside the seeded scope; another Cython "
+            "kernel of the package (ssl gaussian_fill) and raw srand/rand() between calls; forced rare kernel seeds (0, 99999) "
+            "in the thorough tier and in the failing-input search.",
+    "note": "Trusted: Lean kernel (+propext, Classical.choice, Quot.sound); the AST walk (closed world within direct.*: a call "
+            "into an external library is classified by its dotted name only - numpy/torch/scipy functions that are not "
+            "random-number entry points by name are assumed not to draw; every *executed* draw on self.rng is additionally "
+            "checked to be a listed site); the regex front-end for the .pyx event lists (textual order = execution order of the "
+            "straight-line prefix); numpy RandomState determinism (seed -> stream); SHA-1 of get_state() / of the 128 bytes of "
+            "glibc's random state as state identity (libc ids are qualified by the provenance of the last kernel seed and its "
+            "arguments so that coinciding drawn integers are not mistaken for equal symbolic states). Partial / outside: libc's "
+            "state is NOT restored by a kernel-running call (stated and witnessed, not among the streams the property names); "
+            "the number of rand() calls of a kernel run is abstracted to one request whose value stands for the whole loop; "
+            "DataLoader workers are an oracle check (in the model a worker's copy is a `clone`), not part of the "
+            "correspondence; CalgaryCampinas is out of scope: its RNG sites, state writes and unresolved calls are walked and "
+            "reported in the generated file / translator status only (it needs downloaded masks to run); the other two "
+            "definitions of temp_seed (datasets.py, ssl.py) and the third libc user (ssl/_gaussian_fill.pyx) are reported, "
+            "not judged (they belong to C11/C12). Observation (not a violation: deterministic): integerize_seed rejects numpy "
+            "integer scalars / arrays (isinstance(seed, int)), so Gaussian1D/2D/VD-Poisson raise ValueError for seed=np.int64(5) "
+            "while the other 11 generators accept it; EstimateBodyCoilImage passes only the last three axes as shape, so it "
+            "cannot be used with dynamic / multislice generators.",
+    "technique": "Lean 4 proof (induction over interaction trees, LibcOk derivations and op histories) + generated tables "
+                 "decided by `decide` + differential correspondence on recorded draw logs and RNG state ids + direct bitwise oracle",
 }
 TRUSTED = [
     "Lean 4.33 kernel; axioms ⊆ {propext, Classical.choice, Quot.sound}",
-    "harness/translate/recipes/c05.py: AST walk building the RNG-access table (stream + scope of every draw statement)",
+    "harness/translate/recipes/c05.py: closed-world AST walk building the RNG-access table (stream + scope of every draw "
+    "statement reachable from a mask_func inside direct.*), the state-write scan, the consumers table; regex front-end for "
+    "the .pyx libc event lists",
+    "external libraries (numpy, torch, scipy) are classified by dotted name: only np.random.* / random.* / torch.rand* / "
+    "manual_seed / default_rng / RandomState / in-place tensor random fills / methods named like draw methods count as draws",
     "recording RandomState subclass (props/rng_common.py) assigned to mask_func.rng; caller-frame -> table-site mapping",
-    "numpy RandomState: seed(s) determines the stream; get_state/set_state save/restore it exactly",
-    "SHA-1 of np.random.get_state() / torch.get_rng_state() / random.getstate() as identity of a stream state",
-    "out-of-tree build of the Cython kernels (boot.py); libc srand/rand determinism",
+    "numpy RandomState: seed(s) determines the stream; get_state/set_state save/restore it exactly; a rejected seed leaves "
+    "the state untouched (checked on every run by the malformed-seed ops)",
+    "SHA-1 of np.random.get_state() / torch.get_rng_state() / random.getstate() / the bytes of glibc's random state "
+    "(read via setstate swap) as identity of a stream state",
+    "out-of-tree build of the Cython kernels / the .pyx -> Python front-end (boot.py); libc srand/rand determinism",
 ]
 ASSUMPTIONS = [
-    "libc rand() state is excluded from the restoration claim (documented partial)",
+    "libc rand() state is not restored by a kernel-running call: stated exactly (libc_after_seeded_call, libc_not_restored), "
+    "excluded from the restoration claim",
     "symbolic-stream model: two stream states are equal iff produced by the same seed and request sequence "
-    "(the harness gives every perturbation of a global stream a distinct size so that this is exact)",
+    "(the harness gives every perturbation of a global stream a distinct power-of-two size so that this is exact; libc "
+    "state ids carry the provenance of the last kernel seed)",
+    "one kernel run = srand(v) followed by one abstract request on the libc stream (its value = everything the rand() loop computed)",
 ]
-RULE = ("one case = one history (4-9 ops: calls with other seeds / unseeded / other shapes / return_acs / other generator / "
-        "second instance, malformed rank / float seed, exceptions injected inside the seeded scope, infeasible pairs raising "
-        "inside the scope, CreateSamplingMask transforms with the same / another file name, perturbations and re-seedings of "
-        "numpy, torch, python global streams) followed by the observed "
-        "seeded call (mask and ACS) on a reused or fresh instance, compared with the same call alone in another process; "
-        "all 14 generators x modes {static, dynamic, multislice} (Kt*: dynamic), int and tuple seeds. non-trivial = the "
-        "history contains at least one other call on the observed instance and one global perturbation, and the mask has an "
-        "axis >= 2; distinct = distinct (generator, mode, shape, seed, history) after canonicalisation")
+RULE = ("one case = one history (4-9 ops: calls with other seeds / unseeded / other shapes / return_acs / other generator (40% a "
+        "kernel generator sharing libc) / second instance, malformed rank / rejected seeds (float, -1, 2**32, (), bad elements), "
+        "exceptions injected inside the seeded scope, infeasible pairs raising inside the scope, CreateSamplingMask / apply_mask / "
+        "EstimateBodyCoilImage consumers each followed by the direct call with the same seed, deep copy / pickle round trip of the "
+        "instance, perturbations and re-seedings of numpy, torch, python and libc, the ssl gaussian_fill kernel; every third history "
+        "a 2-worker DataLoader over samples of two files) followed by the observed seeded call (mask and ACS, each preceded by the "
+        "other kind of call with another seed) on a reused, fresh, deep-copied or unpickled instance, compared with the same call "
+        "alone in another process (different PYTHONHASHSEED); all 14 generators x modes {static, dynamic, multislice} (Kt*: "
+        "dynamic); per configuration int, file-name tuple and one rotating edge seed (0, 1, 2**32-1, list, numpy scalar, numpy "
+        "array, 1-tuple, ~100-tuple, bytes tuple, tuple of numpy ints, elements at the limit). thorough / failing-input search: "
+        "also histories with every kernel seed forced to 0 / 99999. non-trivial = the history contains at least one other call "
+        "on the observed instance and one global perturbation, and the mask has an axis >= 2; distinct = distinct (generator, "
+        "mode, shape, seed, history) after canonicalisation")
+EXTRA_LEAN_MODULES = ["DirectVerif.Lemmas.C05Driver"]
 PENDING_FINDINGS: list[str] = []
 
 MOD = "props.c05"
